@@ -158,7 +158,6 @@ func isFileLocal(p string) bool {
 // ambiguous: some referenced remote path has a candidate local file other than its own (a
 // tail of the path also exists below another local root, or at another depth).
 func (l *Layout) ambiguous(base string, refs []fileTruth) bool {
-	type root struct{ dir string }
 	var roots []string
 	if l.GorootRemote != "" {
 		roots = append(roots, base+"/goroot/src")
@@ -170,7 +169,17 @@ func (l *Layout) ambiguous(base string, refs []fileTruth) bool {
 		parts := strings.Split(strings.TrimPrefix(t.Remote, "/"), "/")
 		for i := 0; i < len(parts); i++ {
 			suffix := strings.Join(parts[i:], "/")
+			head := "/" + strings.Join(parts[:i], "/")
 			for _, r := range roots {
+				// a tail only competes for a root when what precedes it ends like that
+				// kind of root (".../src" or ".../pkg/mod"): a remote root is such a directory
+				kind := "/src"
+				if strings.HasSuffix(r, "/pkg/mod") {
+					kind = "/pkg/mod"
+				}
+				if !strings.HasSuffix(head, kind) {
+					continue
+				}
 				cand := r + "/" + suffix
 				if isFileLocal(cand) && cand != t.Local {
 					return true
